@@ -506,7 +506,7 @@ pub fn zoneinfo_files() -> Vec<std::path::PathBuf> {
         }
     }
     let mut v = vec![];
-    walk(&std::path::Path::new(VERIF_DIR).join("build/zoneinfo"), &mut v);
+    walk(&crate::run::verif_dir().join("build/zoneinfo"), &mut v);
     v.sort();
     v
 }
